@@ -35,7 +35,9 @@ FORMULA_SRC = {"F1": "center(a) + A", "F2": "a:A + scale(b)", "F3": "y ~ a | A",
                "F7": "center(`a b`) + scale(`a b`) + center(`a+b`)",
                # objects owned by the caller and handed over through the context: a contrasts instance (re-used for factors whose levels put its
                # base at different positions) and a float array (transforms must not work on it in place)
-               "F8": "C(G, tr) + a", "F9": "lag(z4) + a"}
+               "F8": "C(G, tr) + a", "F9": "lag(z4) + a",
+               # a helper from the caller's context that itself builds a model matrix (of other data) while the outer build is under way
+               "F10": "a + nested(b) + A"}
 
 
 def _plain_center(x):
@@ -46,11 +48,19 @@ def _plain_scale(x):
     return x * 2.0
 
 
+def _nested(x):
+    """builds an unrelated model matrix in the middle of somebody else's build, then hands its argument back"""
+    from formulaic import model_matrix
+    other = pd.DataFrame({"a": [10.0, 20.0, 30.0], "b": [1.0, 0.0, 2.0], "A": pd.Series(["q", "r", "q"], dtype=object)})
+    model_matrix("a + b + A", other)
+    return x
+
+
 # evaluation contexts: the default one, and one in which the names of two built-in *stateful* transforms are bound to plain functions
 def make_contexts():
     """fresh caller-owned context objects for every world (they are inputs: a build must not change them)"""
     from formulaic.transforms.contrasts import TreatmentContrasts
-    return {"ctx-default": {"kn": [2.0, 4.0], "tr": TreatmentContrasts(base="c"), "z4": np.array([1.0, 2.0, 4.0, 8.0])},
+    return {"ctx-default": {"kn": [2.0, 4.0], "tr": TreatmentContrasts(base="c"), "z4": np.array([1.0, 2.0, 4.0, 8.0]), "nested": _nested},
             "ctx-shadow": {"center": _plain_center, "scale": _plain_scale, "kn": [2.0, 4.0], "tr": TreatmentContrasts(base="c"), "z4": np.array([1.0, 2.0, 4.0, 8.0])}}
 
 
@@ -70,7 +80,7 @@ def make_world():
     d2["a b"], d2["a+b"] = [2.0, 7.0, 1.0, 8.0, 2.5], [1.0, 4.0, 9.0, 16.0, 25.0]
     w = {"D1": d1, "D2": d2}
     for k, src in FORMULA_SRC.items():
-        if k in ("F6", "F7", "F8", "F9"):
+        if k in ("F6", "F7", "F8", "F9", "F10"):
             continue  # F6 needs a context (knots list): only built through ("mmctx", ...); F7 is built from its string there too
         try:
             w[k] = Formula(src)
@@ -371,6 +381,79 @@ def drv_perm(c, ctx, col):
 
 
 # ---------------------------------------------------------------------------
+# builds that overlap in time: a helper in the caller's context builds another model matrix while the outer build is under way
+
+NESTED_FORMULAS = [("a + nested(b) + A", "a + b + A"), ("nested(a):A + b", "a:A + b"), ("y ~ nested(a) | A + nested(b)", "y ~ a | A + b"), ("center(a) + nested(b)", "center(a) + b")]
+
+
+def drv_nested(c, ctx, col):
+    from formulaic import model_matrix
+    from props.common import dense
+    src, plain = c.pick(NESTED_FORMULAS)
+    dname = c.pick(["D1", "D2"])
+    output = c.pick(["pandas", "numpy", "sparse"])
+    depth = 1 + c.upto(1)  # the helper's own build may itself use the helper
+
+    def nested(x, _d=[0]):
+        _d[0] += 1
+        try:
+            other = pd.DataFrame({"a": [10.0, 20.0, 30.0], "b": [1.0, 0.0, 2.0], "A": pd.Series(["q", "r", "q"], dtype=object), "y": [0.0, 1.0, 2.0]})
+            model_matrix("a + nested(b) + A" if _d[0] < depth else "a + b + A", other, context={"nested": nested})
+        finally:
+            _d[0] -= 1
+        return x
+
+    key = "nested-build %r frame=%s output=%s depth=%d" % (src, dname, output, depth)
+    with warnings.catch_warnings():
+        warnings.simplefilter("ignore")
+        want = _safe(lambda: model_matrix(plain, make_world()[dname], output=output))
+        got = _safe(lambda: model_matrix(src, make_world()[dname], output=output, context={"nested": nested}))
+    col.interesting()
+
+    def flat(r):
+        from formulaic.utils.structured import Structured
+        if isinstance(r, Exception):
+            return ("raised", type(r).__name__)
+        parts = list(r._flatten()) if isinstance(r, Structured) else [r]
+        return [dense(p_).tolist() for p_ in parts]
+
+    a, b = flat(got), flat(want)
+    if digest(a) != digest(b):
+        col.violation(key, {"formula": src, "same_formula_without_the_helper": plain, "frame": dname, "output": output, "got": a, "want": b,
+                            "note": "a build started from inside a context function changes the outer build's result"}, sig="overlapping-builds-interfere")
+    col.sample({"formula": src, "frame": dname, "output": output})
+
+
+# ---------------------------------------------------------------------------
+# one materializer object serving several builds
+
+REUSE_FORMULAS = ["a", "A", "a + A", "b + B", "y ~ a | A", "center(a) + b"]
+
+
+def drv_mat_reuse(c, ctx, col):
+    from formulaic.materializers import NarwhalsMaterializer, PandasMaterializer
+    f1, f2 = c.pick(REUSE_FORMULAS), c.pick(REUSE_FORMULAS)
+    dname = c.pick(["D1", "D2"])
+    o1, o2 = c.pick(["pandas", "sparse"]), c.pick(["pandas", "numpy"])
+    cls = c.pick([PandasMaterializer, NarwhalsMaterializer])
+    key = "materializer-reuse %s(%s): %r [%s] then %r [%s]" % (cls.__name__, dname, f1, o1, f2, o2)
+    with warnings.catch_warnings():
+        warnings.simplefilter("ignore")
+        m = cls(make_world()[dname][["y", "a", "b", "A", "B"]])
+        _safe(lambda: m.get_model_matrix(f1, output=o1))
+        d_got = set()
+        got = _safe(lambda: m.get_model_matrix(f2, output=o2, drop_rows=d_got))
+        d_want = set()
+        want = _safe(lambda: cls(make_world()[dname][["y", "a", "b", "A", "B"]]).get_model_matrix(f2, output=o2, drop_rows=d_want))
+    col.interesting()
+    a, b = (result_digest(got), sorted(int(i) for i in d_got)), (result_digest(want), sorted(int(i) for i in d_want))
+    if a != b:
+        col.violation(key, {"first": f1, "first_output": o1, "second": f2, "second_output": o2, "frame": dname, "materializer": cls.__name__,
+                            "second_after_first": a, "second_on_a_fresh_materializer": b}, sig="materializer-object-remembers-earlier-build")
+    col.sample({"first": f1, "second": f2, "frame": dname})
+
+
+# ---------------------------------------------------------------------------
 # the hash-order seam: iteration order of ANY set / dict of the library's hashable objects
 
 HASH_CLASSES = {
@@ -588,9 +671,13 @@ def subchecks(tier, seed):
             shard_depth=2, bounds={"max_events": 2 if quick else 3, "formulas": FORMULA_SRC, "frames": 2}),
         Sub("histories-depth3-slice", drv_hist, {"D": 3, "formulas": ["F1"] if quick else ["F1", "F2", "F3", "F4"], "entries": ["umm"] if quick else ["mm", "umm"]},
             shard_depth=2, bounds={"max_events": 3, "formulas": ["F1"] if quick else list(FORMULA_SRC), "entries": "shared unfitted specs (+model_matrix in thorough)"}),
-        Sub("histories-contexts", drv_hist, {"D": 2 if quick else 3, "formulas": [], "ctx_formulas": ["F1", "F2", "F6", "F3", "F7", "F8", "F9"], "entries": []},
+        Sub("histories-contexts", drv_hist, {"D": 2 if quick else 3, "formulas": [], "ctx_formulas": ["F1", "F2", "F6", "F3", "F7", "F8", "F9", "F10"], "entries": []},
             shard_depth=2, bounds={"max_events": 2 if quick else 3, "events": "builds of F1/F2 under the default context and under a context binding "
                                    "'center'/'scale' to plain functions, reuse of every produced spec, update, pickle, subset"}),
+        Sub("overlapping-builds", drv_nested, {}, shard_depth=2,
+            bounds={"formulas": [x[0] for x in NESTED_FORMULAS], "frames": 2, "outputs": 3, "nesting_depth": "1..2", "oracle": "the same formula without the helper"}),
+        Sub("materializer-object-reuse", drv_mat_reuse, {}, shard_depth=2,
+            bounds={"formulas": REUSE_FORMULAS, "pairs": "all ordered pairs", "frames": 2, "materializers": ["pandas", "narwhals"], "outputs": "2 x 2"}),
         Sub("hash-orders", drv_hashorder, {"formulas": HASH_FORMULAS[:4] if quick else HASH_FORMULAS}, shard_depth=3,
             bounds={"classes": list(HASH_CLASSES), "formulas": HASH_FORMULAS[:4] if quick else HASH_FORMULAS,
                     "orders": "all permutations of <= 5 distinct objects, otherwise every choice of the first three"}),
